@@ -5,7 +5,7 @@
    variant of it.  Statements only; proofs are in Proofs/GreedyP.v. *)
 From Coq Require Import List Arith ZArith Bool Permutation.
 Import ListNotations.
-From KV Require Import Model.Greedy Proofs.GreedyP.
+From KV Require Import Model.Greedy Proofs.GreedyP Proofs.GreedyFunP.
 Local Open Scope Z_scope.
 
 (* the checker is sound for the rule: layers in non-increasing total cost,
@@ -63,6 +63,16 @@ Example upstream_split :
 Proof. split; vm_compute; reflexivity. Qed.
 
 (* a different (also least-loaded) tie-break is accepted; a non-minimal one is not *)
+(* the deterministic function `greedy` (first-minimum tie-breaks; the function the correspondence
+   compares KAISAAssignment.greedy_assignment with, output for output) IS accepted by the checker,
+   for all pairwise-disjoint non-empty worker groups and all layers with at least one factor and
+   distinct factor names: so every theorem above holds for its result, for all inputs *)
+Theorem greedy_in_relation : forall work groups colocate,
+  wf_groups groups -> groups <> [] -> (forall g, In g groups -> g <> []) ->
+  (forall fs, In fs work -> fs <> [] /\ NoDup (map fst fs)) ->
+  greedy_ok_b work groups colocate (greedy work groups colocate) = true.
+Proof. exact greedy_accepts_l. Qed.
+
 Example other_tiebreak_accepted :
   greedy_ok_b [[(0%nat, 1)]; [(0%nat, 1)]] [[0;1]%nat; [2;3]%nat] true
               [(0, [(0, 3)]); (1, [(0, 1)])]%nat = true /\
@@ -75,3 +85,4 @@ Print Assumptions greedy_complete_confined.
 Print Assumptions greedy_colocated.
 Print Assumptions balance_workers.
 Print Assumptions balance_groups.
+Print Assumptions greedy_in_relation.
